@@ -11,7 +11,8 @@ REGISTRY = {}
 
 class LoopContract:
     def __init__(self, invariants=(), variant=None, variant_lb=0, variant_dec=None, variant_dec_expr=None,
-                 types=None, havoc=(), role='route', index=None, ghost_init=None, ghost_update=None):
+                 types=None, havoc=(), role='route', index=None, ghost_init=None, ghost_update=None,
+                 lemmas_end=()):
         self.invariants = [(f'inv{i}', x) if isinstance(x, str) else tuple(x) for i, x in enumerate(invariants)]
         self.variant = variant
         self.variant_lb = variant_lb
@@ -23,14 +24,33 @@ class LoopContract:
         self.index = index
         self.ghost_init = ghost_init
         self.ghost_update = ghost_update
+        self.lemmas_end = list(lemmas_end)
 
 
 class Clause:
-    def __init__(self, label, src, role='clause', props=()):
+    """``witness``: for a clause of the form exists(lo, hi, lambda v: body) the program expression
+    (over the function's locals at return) that instantiates v when the clause is *proved*;
+    callers still assume the existential."""
+
+    def __init__(self, label, src, role='clause', props=(), witness=None):
         self.label = label
         self.src = src
         self.role = role
         self.props = tuple(props)
+        self.witness = witness
+
+    def proof_src(self):
+        if not self.witness:
+            return self.src
+        import ast
+        t = ast.parse(self.src.strip(), mode='eval').body
+        if not (isinstance(t, ast.Call) and isinstance(t.func, ast.Name) and t.func.id == 'exists'
+                and len(t.args) == 3 and isinstance(t.args[2], ast.Lambda)):
+            raise EngineError(f'witness given for a clause that is not exists(lo, hi, lambda v: ...): {self.label}')
+        lo, hi, lam = t.args
+        v = lam.args.args[0].arg
+        return (f'(lambda {v}: ({ast.unparse(lo)}) <= {v} < ({ast.unparse(hi)}) and ({ast.unparse(lam.body)}))'
+                f'({self.witness})')
 
 
 def _clauses(xs, default_role):
@@ -40,6 +60,8 @@ def _clauses(xs, default_role):
             out.append(x)
         elif isinstance(x, str):
             out.append(Clause(f'c{i}', x, default_role))
+        elif isinstance(x, dict):
+            out.append(Clause(x['label'], x['src'], x.get('role', default_role), x.get('props', ()), x.get('witness')))
         else:
             out.append(Clause(x[0], x[1], x[2] if len(x) > 2 else default_role, x[3] if len(x) > 3 else ()))
     return out
@@ -67,7 +89,7 @@ class Contract:
     def __init__(self, key, params=None, requires=(), ensures=(), raises=None, loops=None, modifies=None,
                  modular=False, which=None, props=(), note='', setup=None, result_shape=None, witnesses=(),
                  assume_result=None, ghost=None, exc_ensures=None, max_instances=None, instance_filter=None,
-                 pre_state=None, trusted=False):
+                 pre_state=None, trusted=False, reveal=()):
         self.key = key
         self.params = params or {}
         self.requires = _clauses(requires, 'requires')
@@ -87,6 +109,7 @@ class Contract:
         self.instance_filter = instance_filter
         self.pre_state = pre_state
         self.trusted = trusted
+        self.reveal = tuple(reveal)
 
     @property
     def relfile(self):
@@ -623,7 +646,9 @@ class RandomEv:
             if isinstance(shape, Real):
                 v = self._real(shape)
                 if self.sorted_lists and (name, j - 1) in self.memo:
-                    v = self.memo[(name, j - 1)] + abs(v) * 0.1 + (0.01 if self.rng.random() < 0.8 else 0.0)
+                    v = self.memo[(name, j - 1)] + self.rng.uniform(0.05, 1.0)
+                elif self.sorted_lists:
+                    v = self.rng.uniform(-2.0, 2.0)
                 self.memo[k] = v
             elif isinstance(shape, Int):
                 self.memo[k] = self.int(f'{name}[{j}]', shape)
